@@ -135,6 +135,20 @@ func contextOracle(p *ast.Program) (exp map[string]ctxAnswer, stmtStarts map[str
 	return
 }
 
+var c16QueryFilters = []string{"return", "literal", "function", "let-or-ident"}
+
+func c16QueryFilter(name string) func(token.Type) bool {
+	switch name {
+	case "return":
+		return func(t token.Type) bool { return t == token.RETURN }
+	case "literal":
+		return func(t token.Type) bool { return t == token.INT || t == token.STRING || t == token.FLOAT || t == token.TRUE || t == token.NULL }
+	case "function":
+		return func(t token.Type) bool { return t == token.FUNCTION }
+	}
+	return func(t token.Type) bool { return t == token.LET || t == token.IDENT }
+}
+
 type ctxEvent struct {
 	kind     byte
 	id       int
@@ -205,6 +219,30 @@ func checkC16(c *oracleCtx, flags string, ops []customOp, src string, wantValid 
 		for k := range stmtStarts {
 			if !seenStmt[k] {
 				c.violation("statement-without-event", "statement starting at "+k+" produced no statement-observer event", input)
+				return
+			}
+		}
+		// an observer that asks only now and then (a linter asking at `return`, at literals, at `function`) gets the answers
+		// the always-asking observer got at those steps: an answer does not depend on which questions were asked before
+		for _, name := range c16QueryFilters {
+			f := c16QueryFilter(name)
+			su3 := su
+			su3.queryAt = f
+			o3 := runParse(su3, src)
+			var want []string
+			for _, es := range o.trace {
+				if f(token.Type(parseEvent(es).typ)) {
+					want = append(want, es)
+				}
+			}
+			if strings.Join(o3.trace, ",") != strings.Join(want, ",") {
+				in2 := map[string]any{}
+				for k, v := range input {
+					in2[k] = v
+				}
+				in2["query_only_at"] = name
+				c.violation("sparse-queries", "an observer asking only at "+name+" tokens gets other answers than one asking at every step: "+
+					firstDiff(strings.Join(want, ","), strings.Join(o3.trace, ",")), in2)
 				return
 			}
 		}
@@ -324,7 +362,9 @@ func oracleC16(c *oracleCtx) {
 		"function f() { a; }", "{ a; }", "{ function f() { { a; } } }", "x = function() { return function() { y; }; };",
 		"f(function() { a; }, { k: function() { b; } }, [function() { c; }]);", "if (function() { return 1; }()) { a; }",
 		"function f(a) { if (a) { while (a) { for (;;) { return { k: function g() { { a; } } }; } } } }",
-		"{ } { { } } function f() { }", "let v = function() { }; v;", "while (a) function_call(function() { return a; });",
+		"{ } { { } } function f() { }", "let v = function() { }; v;",
+		"function f() { { 1; } }\n{ { 2; } }\nfunction g() { { return 3; } }\n{ { 4; } }", "{ { 1; } }\nfunction f() { { 2; } }\nx = function() { { 3; } };\n{ { 4; } }",
+		"if (a) { if (b) { return 1; } }\nfunction f() { return 2; }\nwhile (c) { return 3; }", "while (a) function_call(function() { return a; });",
 	}
 	for _, s := range fixed {
 		for _, fl := range modeFlags {
